@@ -17,16 +17,24 @@ pub struct FontCase {
     /// corpus-relative path (`vcore::corpus_fonts()` key)
     pub seed: String,
     pub devs: Vec<Dev>,
+    /// truncation: (table tag, k) — the table record's length is reduced by k bytes and, when the table is the
+    /// physically last one of the file, the file is cut there too
+    pub trunc: Option<(String, u32)>,
 }
 
 impl FontCase {
     pub fn to_json(&self) -> Value {
-        json!({"seed": self.seed,
-               "devs": self.devs.iter().map(|d| json!({"table": d.table, "off": d.off, "bytes": vcore::hex(&d.bytes)})).collect::<Vec<_>>()})
+        let mut v = json!({"seed": self.seed,
+               "devs": self.devs.iter().map(|d| json!({"table": d.table, "off": d.off, "bytes": vcore::hex(&d.bytes)})).collect::<Vec<_>>()});
+        if let Some((t, k)) = &self.trunc {
+            v["trunc"] = json!({"table": t, "by": k});
+        }
+        v
     }
     pub fn from_json(v: &Value) -> Option<FontCase> {
         Some(FontCase {
             seed: v["seed"].as_str()?.to_string(),
+            trunc: v["trunc"]["table"].as_str().map(|t| (t.to_string(), v["trunc"]["by"].as_u64().unwrap_or(0) as u32)),
             devs: v["devs"]
                 .as_array()
                 .map(|a| {
@@ -44,7 +52,11 @@ impl FontCase {
     /// Bytes of the deviated font; None if the seed is unknown or a deviation falls outside the file.
     pub fn bytes(&self) -> Option<Vec<u8>> {
         let seed = seed_bytes(&self.seed)?;
-        apply(seed, &self.devs)
+        let bytes = apply(seed, &self.devs)?;
+        match &self.trunc {
+            None => Some(bytes),
+            Some((table, k)) => truncate_table(&bytes, table, *k as usize),
+        }
     }
 }
 
@@ -92,6 +104,52 @@ pub fn table_dir(data: &[u8]) -> Vec<(String, usize, usize)> {
         }
     }
     out
+}
+
+/// Position of the table record (tag, checksum, offset, length) of `table` in font 0 of the file.
+fn table_record_pos(data: &[u8], table: &str) -> Option<usize> {
+    let mut base = 0usize;
+    if data.get(0..4) == Some(b"ttcf") {
+        base = be32(data, 12)?;
+    }
+    let n = be16(data, base + 4)?;
+    (0..n).map(|i| base + 12 + 16 * i).find(|r| data.get(*r..*r + 4) == Some(table.as_bytes()))
+}
+
+/// Shorten `table` by `k` bytes: the record's length field is reduced; if the table's data ends at (or within
+/// 3 padding bytes of) the end of the file, the file is physically cut as well. None if k exceeds the length.
+pub fn truncate_table(data: &[u8], table: &str, k: usize) -> Option<Vec<u8>> {
+    let r = table_record_pos(data, table)?;
+    let off = be32(data, r + 8)?;
+    let len = be32(data, r + 12)?;
+    if k > len {
+        return None;
+    }
+    let mut out = data.to_vec();
+    out[r + 12..r + 16].copy_from_slice(&((len - k) as u32).to_be_bytes());
+    let end = off.checked_add(len)?;
+    if end <= data.len() && data.len() - end <= 3 {
+        out.truncate(end - k);
+    }
+    Some(out)
+}
+
+/// Tables with trailing variable-size records: every prefix length over their last 32 bytes is enumerated.
+pub const TRAILING_TABLES: [&str; 18] = [
+    "COLR", "CPAL", "gvar", "glyf", "loca", "cmap", "GSUB", "GPOS", "GDEF", "HVAR", "MVAR", "CFF ", "CFF2", "name", "post", "sbix",
+    "CBDT", "CBLC",
+];
+
+/// Truncation amounts for `table` of length `len`: `ks` for every table, 1..=32 for `TRAILING_TABLES`.
+pub fn truncations(table: &str, len: usize, ks: &[usize], trailing: bool) -> Vec<usize> {
+    let mut v: Vec<usize> = ks.to_vec();
+    if trailing && TRAILING_TABLES.contains(&table) {
+        v.extend(1..=32);
+    }
+    v.retain(|k| *k <= len);
+    v.sort();
+    v.dedup();
+    v
 }
 
 pub fn apply(seed: &[u8], devs: &[Dev]) -> Option<Vec<u8>> {
